@@ -84,14 +84,16 @@ func init() {
 	register("C02",
 		"Structural agreement of decoder and encoder conventions: TABLE.keys (both halves read the shared key variables), PAIR.derived (lenAttrPrefix tracks attrPrefix), TABLE.partition (attribute / text / element partition of a map's keys is the same predicate in both scans), ESC.flow (every Map value reaches the output escaped unless xmlEscapeChars is known false), TABLE.escape (entity table, order, no unescaped early return), ORDER (sorted emission), WALK.arms (every list member and collected child is encoded), TAGS.protocol (path-sensitive typestate of the Map element encoder: on every path feasible for a decoder-shaped value the buffer writes follow start tag, attributes, close, content, end tag / self-close; start and end tag name the same parameter; no successful return leaves an open element), TAGS.content (on no path is the element completed while its text entry or scalar value — string, number or boolean, as float/bool casting produces — has not been written). Not decided: equality of the second decode with the first; well-formedness of names and of the sequence encoder's output."+levelNote,
 		nil,
-		ruleTagProtocol, func(p *Prog, r *Report) { ruleTagContent(p, r, "map") }, ruleTableKeys, rulePairDerived, ruleTablePartition, ruleEsc, ruleTableEscape, ruleOptExcl,
+		ruleTagProtocol, func(p *Prog, r *Report) { ruleTagContent(p, r, "map") }, ruleTableKeys,
+		func(p *Prog, r *Report) { ruleRenderLossless(p, r, []string{"mxj.marshalMapToXmlIndent"}) }, rulePairDerived, ruleTablePartition, ruleEsc, ruleTableEscape, ruleOptExcl,
 		func(p *Prog, r *Report) { ruleOrder(p, r, grpMapEncode) },
 		func(p *Prog, r *Report) { ruleWalkArms(p, r, []string{"mxj.marshalMapToXmlIndent"}) })
 
 	register("C03",
-		"Structural clauses of 'encoding a JSON-shaped value as XML preserves all data': WALK.arms (every list member encoded in order under its key, every collected child encoded, AnyXml encodes every member of a list value), TABLE.partition, ESC.flow, TABLE.escape (all five special characters are escaped, '&' first, no early return leaves one unescaped), ERR.path on the Map encoders and AnyXml/AnyXmlIndent (an element encoder error cannot be overwritten or dropped), TAGS.protocol (typestate of the element encoder: every path feasible for a JSON-shaped value writes a complete, properly nested element), TAGS.content (no scalar value or text entry is dropped: a write computed from it precedes the end of the element on every path), OWN.private (the document returned is not reachable from package state — a pooled or cached buffer — so no later call can rewrite it). Not decided: decode(encode(m)) ≅ m; well-formedness for arbitrary key strings."+levelNote,
+		"Structural clauses of 'encoding a JSON-shaped value as XML preserves all data': WALK.arms (every list member encoded in order under its key, every collected child encoded, AnyXml encodes every member of a list value), TABLE.partition, ESC.flow, TABLE.escape (all five special characters are escaped, '&' first, no early return leaves one unescaped), ERR.path on the Map encoders and AnyXml/AnyXmlIndent (an element encoder error cannot be overwritten or dropped), TAGS.protocol (typestate of the element encoder: every path feasible for a JSON-shaped value writes a complete, properly nested element), TAGS.content (no scalar value or text entry is dropped: a write computed from it precedes the end of the element on every path), OWN.private (the document returned is not reachable from package state — a pooled or cached buffer — so no later call can rewrite it), RENDER.lossless (no value-changing numeric conversion between the encoded value and its text). Not decided: decode(encode(m)) ≅ m; well-formedness for arbitrary key strings."+levelNote,
 		nil,
 		ruleTagProtocol, func(p *Prog, r *Report) { ruleTagContent(p, r, "map") },
+		func(p *Prog, r *Report) { ruleRenderLossless(p, r, []string{"mxj.marshalMapToXmlIndent"}) },
 		func(p *Prog, r *Report) {
 			ruleOwnPrivate(p, r, []string{"mxj.Map.Xml", "mxj.Map.XmlIndent", "mxj.AnyXml", "mxj.AnyXmlIndent"})
 		},
@@ -102,11 +104,14 @@ func init() {
 		})
 
 	register("C04",
-		"Structural clauses of the MapSeq round trip: PAIR.seq (every token kind gets a fresh sequence number that is advanced in the same block; attributes take their index; the child collection skips exactly the attribute and sequence keys), ORDER on the sequence encoder (attributes and children are sorted by sequence number before any write), DECODE.sibling and WALK.arms for the sequence codec, SHAPE.seq (decoder output has the shape the encoder asserts), PANIC.* on both halves, WRAP.compose for BeautifyXml, TAGS.seqprotocol (token-level typestate of the sequence encoder: < name, blank name = quoted value, then either > content </ name > or />, comment / directive / processing-instruction forms; no successful return leaves an open element), TAGS.content (the text entry and the scalar value are written on every path that completes the element, for strings and for the numbers / booleans casting produces), OWN.private (the encoded document is not reachable from package state). Not decided: token-stream equality."+levelNote,
+		"Structural clauses of the MapSeq round trip: PAIR.seq (every token kind gets a fresh sequence number that is advanced in the same block; attributes take their index; the child collection skips exactly the attribute and sequence keys), ORDER on the sequence encoder (attributes and children are sorted by sequence number before any write), DECODE.sibling and WALK.arms for the sequence codec, SHAPE.seq (decoder output has the shape the encoder asserts), PANIC.* on both halves, WRAP.compose for BeautifyXml, TAGS.seqprotocol (token-level typestate of the sequence encoder: < name, blank name = quoted value, then either > content </ name > or />, comment / directive / processing-instruction forms; no successful return leaves an open element), TAGS.content (the text entry and the scalar value are written on every path that completes the element, for strings and for the numbers / booleans casting produces), OWN.private (the encoded document is not reachable from package state), SEQ.unwind (every member of a list of same-named children is a sort entry of its own), SEQ.result (the map the decoder returns for an element is written only when the element ends, so nothing collected for it is dropped), RENDER.lossless. Not decided: token-stream equality."+levelNote,
 		nil,
 		ruleTagProtocolSeq, func(p *Prog, r *Report) { ruleTagContent(p, r, "seq") },
-		func(p *Prog, r *Report) { ruleOwnPrivate(p, r, []string{"mxj.MapSeq.Xml", "mxj.MapSeq.XmlIndent", "mxj.BeautifyXml"}) },
-		rulePairSeq,
+		func(p *Prog, r *Report) {
+			ruleOwnPrivate(p, r, []string{"mxj.MapSeq.Xml", "mxj.MapSeq.XmlIndent", "mxj.BeautifyXml"})
+		},
+		rulePairSeq, ruleSeqUnwind, ruleSeqResult,
+		func(p *Prog, r *Report) { ruleRenderLossless(p, r, []string{"mxj.mapToXmlSeqIndent"}) },
 		func(p *Prog, r *Report) { ruleOrder(p, r, concat(grpSeqEncode, grpBeautify)) },
 		func(p *Prog, r *Report) { ruleDecodeSibling(p, r, []string{"mxj.xmlSeqToMapParser"}) },
 		func(p *Prog, r *Report) { ruleWalkArms(p, r, []string{"mxj.mapToXmlSeqIndent"}) },
@@ -141,9 +146,16 @@ func init() {
 		})
 
 	register("C07",
-		"Structural clauses of ValuesForPath exactness: PAIR.count (result is ret[:cnt] with cnt == len(ret)), WALK.progress (each recursion consumes exactly one segment; values are appended only when the path is exhausted), WALK.collect (collecting helpers are not recursive), ALIAS.reuse (no result buffer shares the array of a slice still being ranged over faster than it is consumed), WRAP.compose for ValueForPath / ValueForPathString / Exists (first value / non-empty of the plural form), PANIC.idx/assert on the indexed-path wrapper and the path parser. Not decided: that the returned multiset is the denoted one."+levelNote,
+		"Structural clauses of ValuesForPath exactness: PAIR.count (result is ret[:cnt] with cnt == len(ret)), WALK.progress (each recursion consumes exactly one segment; values are appended only when the path is exhausted), WALK.collect (collecting helpers are not recursive), ALIAS.reuse (no result buffer shares the array of a slice still being ranged over faster than it is consumed), WRAP.compose for ValueForPath / ValueForPathString / Exists (first value / non-empty of the plural form), PANIC.idx/assert on the indexed-path wrapper and the path parser, PRESENCE.commaok (whether a node has a key is decided by the comma-ok lookup, never by comparing the value with nil: null is a value). Not decided: that the returned multiset is the denoted one."+levelNote,
 		nil,
 		func(p *Prog, r *Report) { rulePairCount(p, r, []string{"mxj.Map.oldValuesForPath"}) },
+		func(p *Prog, r *Report) {
+			in := map[string]bool{}
+			for _, f := range p.scopeFuncs(r, "PRESENCE.commaok", []string{"mxj.Map.ValuesForPath", "mxj.Map.ValueForPath", "mxj.Map.Exists"}) {
+				in[p.Name(f)] = true
+			}
+			rulePresence(p, r, func(n string) bool { return in[n] }, "path queries")
+		},
 		func(p *Prog, r *Report) { ruleWalkProgress(p, r, []string{"mxj.valuesForKeyPath"}) },
 		func(p *Prog, r *Report) { ruleWalkCollect(p, r, []string{"mxj.valuesForKeyPath"}) },
 		func(p *Prog, r *Report) {
@@ -159,12 +171,19 @@ func init() {
 		panicRules([]string{"mxj.Map.ValuesForPath", "mxj.Map.ValueForPath", "mxj.Map.ValueForPathString", "mxj.Map.Exists"}))
 
 	register("C08",
-		"Structural clauses of key search and sub-key filters: WALK.total (hasKey and hasKeyPath visit every map entry and list member), WALK.collect, PAIR.count (ValuesForKey), INFL.filter (sub-keys reach only the predicate; no sub-keys means no filtering; the predicate is read-only), INFL.crumb (child paths never contain the searched key), INFL.metric (shortest path by segment count), INFL.cover (sub-key specifications are split on fieldSep), EFFECT.recv for the query methods. Not decided: set equality between ValuesForKey, PathsForKey and ValuesForPath; the predicate's truth table."+levelNote,
+		"Structural clauses of key search and sub-key filters: WALK.total (hasKey and hasKeyPath visit every map entry and list member), WALK.collect, PAIR.count (ValuesForKey), INFL.filter (sub-keys reach only the predicate; no sub-keys means no filtering; the predicate is read-only), INFL.crumb (child paths never contain the searched key), INFL.metric (shortest path by segment count), INFL.cover (sub-key specifications are split on fieldSep), EFFECT.recv for the query methods, PRESENCE.commaok. Not decided: set equality between ValuesForKey, PathsForKey and ValuesForPath; the predicate's truth table."+levelNote,
 		nil,
 		func(p *Prog, r *Report) {
 			ruleWalkTotal(p, r, []walkerSpec{{"mxj.hasKey", nil}, {"mxj.hasKeyPath", nil}})
 		},
 		func(p *Prog, r *Report) { ruleWalkCollect(p, r, []string{"mxj.hasKey"}) },
+		func(p *Prog, r *Report) {
+			in := map[string]bool{}
+			for _, f := range p.scopeFuncs(r, "PRESENCE.commaok", []string{"mxj.Map.ValuesForKey", "mxj.Map.PathsForKey", "mxj.Map.PathForKeyShortest"}) {
+				in[p.Name(f)] = true
+			}
+			rulePresence(p, r, func(n string) bool { return in[n] }, "key search")
+		},
 		func(p *Prog, r *Report) { rulePairCount(p, r, []string{"mxj.Map.ValuesForKey"}) },
 		func(p *Prog, r *Report) { ruleInflFilter(p, r, []string{"mxj.hasKey", "mxj.valuesForKeyPath"}) },
 		func(p *Prog, r *Report) { ruleInflCrumb(p, r, []string{"mxj.hasKeyPath"}) },
@@ -192,9 +211,16 @@ func init() {
 		panicRules(grpLeaf))
 
 	register("C10",
-		"Structural clauses of UpdateValuesForPath: PAIR.update (writes only under the update key or the last segment tested equal to it; the stored value is the new value or a list rebuilt from old members and the new value; per block the counter increments equal the replacements; the rebuilt list is stored only when something was replaced), WALK.progress (one segment per recursion, hand-over to the leaf function exactly at the last segment), INFL.filter, INFL.cover (new-value strings are split on fieldSep). Not decided: that navigation addresses the same nodes as ValuesForPath; the post-state query clause."+levelNote,
+		"Structural clauses of UpdateValuesForPath: PAIR.update (writes only under the update key or the last segment tested equal to it; the stored value is the new value or a list rebuilt from old members and the new value; per block the counter increments equal the replacements; the rebuilt list is stored only when something was replaced; the sub-key conditions guarding a write are evaluated on the node that is written), PRESENCE.commaok (a member holding null under the key is present), WALK.progress (one segment per recursion, hand-over to the leaf function exactly at the last segment), INFL.filter, INFL.cover (new-value strings are split on fieldSep). Not decided: that navigation addresses the same nodes as ValuesForPath; the post-state query clause."+levelNote,
 		nil,
 		rulePairUpdate,
+		func(p *Prog, r *Report) {
+			in := map[string]bool{}
+			for _, f := range p.scopeFuncs(r, "PRESENCE.commaok", []string{"mxj.Map.UpdateValuesForPath"}) {
+				in[p.Name(f)] = true
+			}
+			rulePresence(p, r, func(n string) bool { return in[n] }, "UpdateValuesForPath")
+		},
 		func(p *Prog, r *Report) { ruleWalkProgress(p, r, []string{"mxj.updateValuesForKeyPath"}) },
 		ruleWalkHandover,
 		func(p *Prog, r *Report) {
@@ -204,9 +230,16 @@ func init() {
 		panicRules([]string{"mxj.Map.UpdateValuesForPath"}))
 
 	register("C11",
-		"Structural clauses of SetValueForPath / Remove / RenameKey: PAIR.atomic (exactly the documented writes, none in a loop, no error return reachable after a write, the renamed value moved unchanged then the old key deleted on the same parent, collision test is a presence test), WALK.progress for the parent walker (parent returned by position, recursion on the rest of the path), PANIC.assert/idx/nil. Not decided: the frame condition as a whole; refusal to overwrite at top level (a string-value fact)."+levelNote,
+		"Structural clauses of SetValueForPath / Remove / RenameKey: PAIR.atomic (exactly the documented writes, none in a loop, no error return reachable after a write, the renamed value moved unchanged then the old key deleted on the same parent, collision test is a presence test), WALK.progress for the parent walker (parent returned by position, recursion on the rest of the path), PANIC.assert/idx/nil, PRESENCE.commaok. Not decided: the frame condition as a whole; refusal to overwrite at top level (a string-value fact)."+levelNote,
 		nil,
 		rulePairAtomic, ruleWalkParent,
+		func(p *Prog, r *Report) {
+			in := map[string]bool{}
+			for _, f := range p.scopeFuncs(r, "PRESENCE.commaok", grpMutators[:3]) {
+				in[p.Name(f)] = true
+			}
+			rulePresence(p, r, func(n string) bool { return in[n] }, "SetValueForPath / Remove / RenameKey")
+		},
 		panicRules(grpMutators[:3]))
 
 	register("C12",
